@@ -909,4 +909,56 @@ v("stop-bound-test-after-append", [(P, "            if i >= num:\n              
 
 v("P-closed-set-before-running-cleared", [(P, "        self._tasks_running.clear()\n        self._closed.set()\n", "        self._closed.set()\n        self._tasks_running.clear()\n")], {"C08": "ok"})
 
+# ---- round 8: decorators (WHAT-RUNS)
+LOGGED_DECORATOR = """log = logging.getLogger(__name__)
+
+
+def _logged(method: Any) -> Any:
+    @functools.wraps(method)
+    async def wrapper(self: Any, *args: Any, **kwargs: Any) -> Any:
+        log.debug("calling %s", method.__name__)
+        result = await method(self, *args, **kwargs)
+        log.debug("%s returned", method.__name__)
+        return result
+
+    return wrapper
+"""
+SHARED_DECORATOR = """log = logging.getLogger(__name__)
+
+
+def _single_flight(method: Any) -> Any:
+    @functools.wraps(method)
+    async def wrapper(self: Any, *args: Any, **kwargs: Any) -> Any:
+        pending = getattr(self, "_pending_flush", None)
+        if pending is None or pending.done():
+            pending = asyncio.ensure_future(method(self, *args, **kwargs))
+            self._pending_flush = pending
+        return await asyncio.shield(pending)
+
+    return wrapper
+"""
+SKIPPING_DECORATOR = """log = logging.getLogger(__name__)
+
+
+def _only_when_unlocked(method: Any) -> Any:
+    @functools.wraps(method)
+    async def wrapper(self: Any, *args: Any, **kwargs: Any) -> Any:
+        if self._locked:
+            return None
+        return await method(self, *args, **kwargs)
+
+    return wrapper
+"""
+IMPORTS = ("import logging\n", "import asyncio\nimport functools\nimport logging\n")
+LOGLINE = "log = logging.getLogger(__name__)\n"
+FLUSH_DEF = "    async def flush(\n"
+v("P-transparent-logging-decorator-on-flush", [(P, IMPORTS[0], IMPORTS[1]), (P, LOGLINE, LOGGED_DECORATOR), (P, FLUSH_DEF, "    @_logged\n" + FLUSH_DEF)], {"C13": "ok", "C08": "ok", "C12": "ok"})
+v("single-flight-decorator-on-flush", [(P, IMPORTS[0], IMPORTS[1]), (P, LOGLINE, SHARED_DECORATOR), (P, FLUSH_DEF, "    @_single_flight\n" + FLUSH_DEF)], {"C13": "R00.D", "C12": "R00.D"})
+v("skipping-decorator-on-flush", [(P, IMPORTS[0], IMPORTS[1]), (P, LOGLINE, SKIPPING_DECORATOR), (P, FLUSH_DEF, "    @_only_when_unlocked\n" + FLUSH_DEF)], {"C13": "R00.D"})
+v("lru-cache-on-task-name", [(P, IMPORTS[0], IMPORTS[1]), (P, "    def _task_name(self, task_id: int) -> str:\n", "    @functools.lru_cache(maxsize=None)\n    def _task_name(self, task_id: int) -> str:\n")], {"C11": "R00.D"})
+
+v("flush-rebound-at-module-level", [(P, "AnyTaskPoolT = Union[TaskPool, SimpleTaskPool]\n",
+   "AnyTaskPoolT = Union[TaskPool, SimpleTaskPool]\n\n\nasync def _flush_fast(self: Any, return_exceptions: bool = False) -> None:\n    self._tasks_ended.clear()\n    self._tasks_cancelled.clear()\n\n\nBaseTaskPool.flush = _flush_fast  # type: ignore[method-assign]\n")],
+  {"C13": "R00.D"})
+
 VARIANTS = V
